@@ -373,13 +373,17 @@ impl Components {
             };
 
             // Calculamos la fracción de cada servicio sobre el total
+            // En los pasos sin energía saliente se usa la fracción anual, para no perder consumos auxiliares
+            let q_out_tot_an: f32 = q_out_tot.iter().sum();
             let mut q_out_frac_by_srv = q_out_by_srv;
             let out_services: Vec<Service> = q_out_frac_by_srv.keys().cloned().collect();
             for service in &out_services {
+                let q_out_srv_an: f32 = q_out_frac_by_srv[service].iter().sum();
+                let frac_an = if q_out_tot_an > 0.0 { q_out_srv_an / q_out_tot_an } else { 0.0 };
                 let values = q_out_frac_by_srv[service]
                     .iter()
                     .zip(q_out_tot.iter())
-                    .map(|(val, tot)| if tot > &0.0 { val / tot } else { 0.0 })
+                    .map(|(val, tot)| if tot > &0.0 { val / tot } else { frac_an })
                     .collect();
                 q_out_frac_by_srv.insert(*service, values);
             }
